@@ -3,9 +3,12 @@ package engine
 import (
 	"encoding/json"
 	"fmt"
+	"os"
+	"path/filepath"
 	"regexp"
 	"sort"
 	"strconv"
+	"strings"
 	"testing"
 	"time"
 )
@@ -646,6 +649,22 @@ func laneP_C11(t *testing.T, plan *Plan, _ *World, sink *Sink) {
 	if err := materialize(dir, dec.Before, w.FS.dirs); err != nil {
 		sink.res.Harness = append(sink.res.Harness, "lane P materialize: "+err.Error())
 		return
+	}
+	// a configuration file may be a symbolic link (a shared config kept elsewhere): its age is the
+	// age of the file it points to, which is what lane S saw
+	if r.Chance(1, 2) {
+		if ents := w.Entities(); len(ents) > 0 {
+			e := Pick(r, ents)
+			p := filepath.Join(dir, filepath.FromSlash(e.Path()))
+			store := dir + "-store"
+			if err := os.MkdirAll(store, 0755); err == nil {
+				defer removeAll(store)
+				target := filepath.Join(store, strings.ReplaceAll(e.Path(), "/", "_"))
+				if os.Rename(p, target) == nil && os.Symlink(target, p) == nil {
+					sink.Cell("lane:P:symlinked-config")
+				}
+			}
+		}
 	}
 	before, _ := readDirSnap(dir)
 	yes := "y\n"
